@@ -2,6 +2,7 @@ package main
 
 import (
 	"fmt"
+	"strings"
 )
 
 // jobsFor lists the exploration jobs of one property at one tier.
@@ -143,6 +144,9 @@ func jobsFor(prop, tier string) []Job {
 		// panic, bytes on fd 1/2, liveness horizon, heap ceiling, fatal-error attribution
 		for _, p := range []string{"C01", "C03", "C04", "C05", "C06", "C08", "C09", "C11", "C12", "C13", "C14", "C15", "C16"} {
 			for _, sj := range jobsFor(p, tier) {
+				if strings.Contains(sj.ID, ".via") {
+					continue // re-runs of other properties' jobs are already in this union
+				}
 				sj.ID = "C17.via" + sj.ID
 				sj.Prop = "C17"
 				if sj.Kind == "json12" {
